@@ -46,6 +46,16 @@ type Prop struct {
 	Compare func(c *Sexp, real string, model string) string
 	// Extra adds property specific keys to the evidence
 	Extra func() map[string]interface{}
+	// ReportAs: the property id printed in VIOLATION / KNOWN-FINDING lines and matched against the known
+	// findings, when the stream is an additional stream of another property ("" = ID)
+	ReportAs string
+}
+
+func (p *Prop) reportID() string {
+	if p.ReportAs != "" {
+		return p.ReportAs
+	}
+	return p.ID
 }
 
 var props = map[string]*Prop{}
@@ -400,12 +410,12 @@ func cmdRun(args []string) int {
 		c, o := cases[i], outs[i]
 		matched := ""
 		for _, kf := range known {
-			if kf.Property == p.ID && kf.Status == "open" {
+			if kf.Property == p.reportID() && kf.Status == "open" {
 				if pred := p.Known[kf.Signature]; pred != nil && pred(c, o) {
 					matched = kf.ID
 					if !knownSeen[kf.ID] {
 						knownSeen[kf.ID] = true
-						fmt.Printf("KNOWN-FINDING: property=%s %s (%s): %s\n", p.ID, kf.ID, kf.Signature, kf.What)
+						fmt.Printf("KNOWN-FINDING: property=%s %s (%s): %s\n", p.reportID(), kf.ID, kf.Signature, kf.What)
 					}
 					break
 				}
@@ -424,7 +434,7 @@ func cmdRun(args []string) int {
 				return false
 			}
 			for _, kf := range known {
-				if kf.Property == p.ID && kf.Status == "open" {
+				if kf.Property == p.reportID() && kf.Status == "open" {
 					if pred := p.Known[kf.Signature]; pred != nil && pred(x, ox) {
 						return false
 					}
@@ -439,7 +449,7 @@ func cmdRun(args []string) int {
 		}
 		reportedSig[key] = true
 		path := writeReplay(failure{Kind: "oracle", Line: caseLine(p, small), Real: so.Real, Detail: so.OracleFail})
-		fmt.Printf("VIOLATION property=%s replay=%s\n", p.ID, path)
+		fmt.Printf("VIOLATION property=%s replay=%s\n", p.reportID(), path)
 	}
 	if len(disagreements) > 0 {
 		// correspondence broken: shrink the first few, then decide whether a failing input exists
@@ -475,9 +485,9 @@ func cmdRun(args []string) int {
 					f.Detail += "\noracle on the shrunk case: " + so.OracleFail
 					path = writeReplay(f)
 				}
-				fmt.Printf("VIOLATION property=%s replay=%s\n", p.ID, path)
+				fmt.Printf("VIOLATION property=%s replay=%s\n", p.reportID(), path)
 			} else {
-				fmt.Printf("VIOLATION property=%s replay=%s no-failing-input-found\n", p.ID, path)
+				fmt.Printf("VIOLATION property=%s replay=%s no-failing-input-found\n", p.reportID(), path)
 			}
 			violations++
 		}
@@ -608,7 +618,7 @@ func cmdReplay(args []string) int {
 		}
 	}
 	if bad {
-		fmt.Printf("VIOLATION property=%s replay=%s\n", r.Property, fs.Arg(0))
+		fmt.Printf("VIOLATION property=%s replay=%s\n", p.reportID(), fs.Arg(0))
 		return 1
 	}
 	return 0
